@@ -55,10 +55,13 @@ let run (st : stream) (b : Buffer.t) : unit =
   match load inst perm with
   | Ok nw ->
     Buffer.add_string b "load OK\n";
+    let snaps = ref [] in
+    let outs = ref [] in
     while not (eof st) do
       match next st with
       | "OUT" ->
         let o = read_out st in
+        outs := o :: !outs;
         Printf.bprintf b "OUTCHK c01=%s c02=%s c03=%s c04=%s c05=%s c07=%s\n"
           (codes (check_C01 nw o)) (codes (check_C02 nw o)) (codes (check_C03 nw o)) (codes (check_C04 nw o))
           (codes (check_C05 nw o)) (codes (check_C07 nw o));
@@ -66,7 +69,27 @@ let run (st : stream) (b : Buffer.t) : unit =
           (zs (eval_violation nw o)) (zs (eval_costs nw o)) (zs (lower_bound nw))
       | "SCHED" ->
         let (label, o) = read_sched st in
+        snaps := (label, o) :: !snaps;
         Printf.bprintf b "CHK %s exact=%s inv=%s\n" label (codes (check_exact nw o)) (codes (check_inv nw o))
       | _ -> ()
-    done
+    done;
+    let find l = try Some (List.assoc l !snaps) with Not_found -> None in
+    (match find "ls_result", find "opt", find "final" with
+     | Some ls, Some opt, Some fin ->
+       Printf.bprintf b "WIRE %s\n" (codes (check_wiring nw ls opt fin));
+       (match !outs with
+        | o :: _ ->
+          let jc = List.map (fun (ty, cs) -> (ty, cs)) o.o_cycles in
+          let ok1 = cycles_eqb jc (cycles_of opt) in
+          let ok2 = List.length o.o_vehicles = List.length fin.so_vehicles &&
+                    List.for_all2 (fun v ((id, _), t) ->
+                      vid_eqb v.ov_id id && nids_eqb (itinerary nw v) t.t_nodes) o.o_vehicles fin.so_vehicles in
+          Printf.bprintf b "WIREJSON %s\n"
+            (String.concat "," ((if ok1 then [] else ["1606"]) @ (if ok2 then [] else ["1607"]) @
+                                (if ok1 && ok2 then ["ok"] else [])))
+        | [] -> ())
+     | _ -> ());
+    (match find "mcf", find "start" with
+     | Some m, Some s0 -> Printf.bprintf b "WIRESTART %s\n" (codes (check_start m s0))
+     | _ -> ())
   | _ -> Buffer.add_string b "load PANIC\n"
